@@ -202,7 +202,7 @@ Qed.
 
 Lemma unbond_core : forall s a s', core_inv s -> unbond s a = Ok s' -> core_inv s'.
 Proof.
-  intros s a s' (K & SL) H. unfold unbond in H. guards H. inversion H; subst; clear H.
+  intros s a s' (K & SL) H. unfold unbond, unbond_gen in H. guards H. inversion H; subst; clear H.
   split; unfold keys_inv, slash_inv; proj.
   - intros a0 r0 H. destruct (upd_cases _ (recs s) a None a0) as [[-> E]|[Hn E]]; rewrite E in H; [discriminate|].
     unfold remZ. apply filter_In. split; eauto. apply Bool.negb_true_iff. apply Z.eqb_neq. auto.
